@@ -153,6 +153,12 @@ def run(res, replay=None):
                 res.count((s.package, m.name, hx(b_)[:32], what, cxx, std), True)
                 base = {"schema_xml": mc.xml, "message": m.name, "buffer": hx(b_), "n": len(b_), "case": what,
                         "model": a, "observed": b2, "config": [cxx, std]}
+                if "TIMEOUT" in b2:
+                    # a hostile count steers the traversal through an astronomically long (in-bounds) loop: the watchdog
+                    # ends it; nothing outside the buffer was touched and the model's own iteration bound answers OOB
+                    # for the same reason -- inconclusive, not a violation of this property
+                    dist["timeout"] = dist.get("timeout", 0) + 1
+                    continue
                 if "FAULT" in b2:
                     found |= res.violation("silent-oob:ctrav-hostile-blocklength",
                                            "cursor traversal with %s touched memory at or beyond p+%d without invoking the handler" % (what, len(b_)), base)
